@@ -32,6 +32,8 @@ def one(sid):
                 try:
                     j = json.loads(r.stdout.strip().splitlines()[-1])
                     out[p] = sorted({x["rule"] for x in j["violated"]})
+                    if j.get("undecided") and out[p] == base.get(p, []):
+                        out[p] = "ANALYSIS-ERROR " + "; ".join(j["undecided"])[:300]
                 except Exception:
                     out[p] = "?? " + (r.stdout + r.stderr)[-200:]
         return sid, out
